@@ -180,6 +180,27 @@ def run(ctx):
             ds = d.ds
             gen.add_data_vars(rng, ds, {'face': d.spec['kinds']['face']}, names_prefix='h', n_extra_max=1)
             label = d.spec['label']
+            held = 'as generated'
+            if (n // len(gen.FAMILIES)) % 2 == 1:
+                if d.family in ('cf1d', 'cf2d', 'shoc_simple'):
+                    # stored bounds held as xarray coordinates (set_coords, or a file whose `coordinates` attribute lists them)
+                    bn = [ds[x].attrs.get('bounds') for x in (d.spec['latname'], d.spec['lonname'])]
+                    bn = [b for b in bn if b is not None and b in ds.data_vars]
+                    if bn:
+                        ds = ds.set_coords(bn)
+                        held = 'bounds held as coordinates'
+                elif d.family == 'ugrid':
+                    # connectivity tables stored in an unsigned integer type (tables without padding only)
+                    cast = False
+                    for v_ in list(ds.data_vars):
+                        a_ = ds[v_]
+                        if str(a_.attrs.get('cf_role', '')).endswith('_connectivity') and a_.dtype.kind == 'i' and a_.values.min() >= 0:
+                            ds[v_] = (a_.dims, a_.values.astype('u4'),
+                                      {k_: (numpy.uint32(x_) if k_ in ('start_index', '_FillValue') else x_) for k_, x_ in a_.attrs.items()})
+                            cast = True
+                    if cast:
+                        held = 'integer connectivity tables stored unsigned'
+            ctx.count(f'held:{held}')
             from_file = rng.random() < 0.5
             if from_file:
                 path = os.path.join(tmp, f'd{n}.nc')
@@ -226,6 +247,8 @@ def run(ctx):
                 ('data variables dropped', lambda x: x.drop_vars([v for v in x.data_vars if str(v).startswith('h_')])),
                 ('more time steps', lambda x: x.assign(series=(('many_times',), numpy.arange(7.0)))),
                 ('fortran memory layout', lambda x: fortran_layout(x, names)),
+                # the same file opened in dask chunks of two along every dimension: how the arrays are cut up is not geometry
+                ('opened in dask chunks', (lambda x: xarray.open_dataset(path, chunks={k_: 2 for k_ in x.sizes})) if from_file else (lambda x: x.chunk({k_: 2 for k_ in x.sizes}))),
                 # a CF grid mapping (projection) variable and a data variable pointing at it: neither is a geometry variable
                 ('grid mapping variable and link added', lambda x: x.assign(
                     crs=xarray.DataArray(numpy.int32(0), attrs={'grid_mapping_name': 'latitude_longitude', 'semi_major_axis': 6378137.0}),
